@@ -188,6 +188,9 @@ func init() {
 			w.inflight = filepath.Join(w.OutDir, fmt.Sprintf("inflight-C09-w%d-c%d.json", w.Out.Worker, w.Out.Chunk))
 		}
 		msgs, trouble := rapidRound(seed, checks*2, func(rt *rapid.T) {
+			if w.expired() {
+				return
+			}
 			rec := newRecorder(rt)
 			c := DrawTcCase(rec)
 			w.writeInflight(&replayFile{Property: "C09", Engine: "typecheck", Draws: rec.Draws, Input: c, Violation: Violation{Prop: "C09", Class: "death"}})
